@@ -97,6 +97,8 @@ func StartServer(index string, extra ...string) (*Server, error) {
 		// "env:KEY=VALUE" sets the server's environment instead of a flag
 		if strings.HasPrefix(e, "env:") {
 			env = append(env, e[4:])
+		} else if strings.HasPrefix(e, "listen:") {
+			args[2] = e[7:] // a fixed gRPC address instead of a kernel-chosen port
 		} else {
 			args = append(args, e)
 		}
